@@ -20,7 +20,8 @@ for pid in ids:
             c["text"] += (" On top of this, the check runs this property's functions (a) in generated thread programs under ThreadSanitizer, threads first and a solo run afterwards, in fresh processes, so that"
                           " anything built on first use is first used concurrently (C20's harness restricted to this property's operation kinds), and (b) with every allocation they perform failing in turn, followed by"
                           " a digest of unrelated calls that must be unchanged (C19's enumerator restricted to this property's operations): a result that is wrong only under concurrent first use or after a failed"
-                          " allocation is reported as a violation of this property.")
+                          " allocation is reported as a violation of this property. (c) A static-initialisation probe is part of every harness: a fixed set of calls made before the library's own namespace-scope"
+                          " initialisers ran must give the results it gives from main().")
             c["technique"] += "; plus family-restricted concurrent-use (ThreadSanitizer) and allocation-fault stages"
         checks.append({
             "property_id": pid,
